@@ -861,6 +861,9 @@ func (r *run) reply(s *mstream, opt pool.ReplyOpt, name string) *failure {
 	c := s.conn
 	c.stream = nil
 	switch {
+	case opt.ConnClose && opt.Linger: // HTTP: the server announced the close but leaves the socket open: the pool must close it
+		r.closeConn(c, true)
+		r.class("conn-close-linger")
 	case opt.ConnClose: // HTTP: the server announced and performed the close
 		r.closeConn(c, false)
 		r.class("conn-close")
@@ -1221,6 +1224,7 @@ func (r *run) do(op Op) (f *failure, skipped bool) {
 			name = "reply-close"
 			if r.h.Kind == pool.HTTP1 {
 				opt.ConnClose = true
+				opt.Linger = (op.A/3)%2 == 1
 			} else {
 				opt.GoAway = true
 				r.class("goaway")
